@@ -404,12 +404,36 @@ func OpenLegacy(addr string, o LegacyOpts) (*TClient, *LegacyResult, error) {
 	}
 	hdr := Hdr{{"Rdg-Connection-Id", inID}, {"Transfer-Encoding", "chunked"}}
 	hdr = append(hdr, o.InHeaders...)
-	r, err := hi.Do("RDG_IN_DATA", GatewayPath, hdr, nil, 10*time.Second)
+	// net/http drains (part of) an unread request body before it sends an early
+	// error reply, so a refusal only arrives once the body ended: when no
+	// answer comes promptly, end the (still empty) chunked body.
+	hi.C.SetDeadline(time.Now().Add(10 * time.Second))
+	if _, err := hi.C.Write(BuildRequest("RDG_IN_DATA", GatewayPath, hdr, nil)); err != nil {
+		hi.Close()
+		t.Close()
+		return nil, res, err
+	}
+	hi.C.SetReadDeadline(time.Now().Add(300 * time.Millisecond))
+	nudged := false
+	if _, perr := hi.BR.Peek(1); perr != nil {
+		if ne, ok := perr.(net.Error); ok && ne.Timeout() {
+			nudged = true
+			hi.C.Write([]byte("0\r\n\r\n"))
+		}
+	}
+	hi.C.SetReadDeadline(time.Now().Add(10 * time.Second))
+	r, err := hi.ReadResp("RDG_IN_DATA")
+	hi.C.SetDeadline(time.Time{})
 	res.In = r
 	if err != nil {
 		hi.Close()
 		t.Close()
 		return nil, res, err
+	}
+	if nudged && r.Status == 200 {
+		hi.Close()
+		t.Close()
+		return nil, res, fmt.Errorf("inconclusive: IN accept arrived only after the body was ended")
 	}
 	if r.Status != 200 {
 		hi.Close()
